@@ -274,6 +274,19 @@ def winding_step(ctx, crate):
     if len(leaves) != 2:
         ctx.undecided(clause, key, "expected two longitudes in the update, found %s" % [show(x)[:60] for x in leaves], at=b.span); return
     A, B = leaves
+    # the two longitudes are those of consecutive vertices: one index is the loop counter, the other the
+    # value that counter had one round before (a merge of `len - 1`, for the first round, and the counter)
+    from rules.common import loop_var_range
+    def index_of(t):
+        for x in walk(t):
+            if x[0] == 'idx': return x[2]
+        return None
+    ia, ib = index_of(A), index_of(B)
+    def is_prev_of(p_, cur):
+        if p_ is None or cur is None or p_[0] != 'phi': return False
+        ops_ = e.phi_ops.get(p_, ())
+        return len(ops_) == 2 and cur in ops_ and any(o[0] == 'op' and o[1] == 'sub' and o[4] == ('c', 'usize', 1) for o in ops_ if o != cur)
+    consecutive = is_prev_of(ib, ia) or is_prev_of(ia, ib)
     from mir import f64_from_bits
     grid = [0.0, 0.3, 1.0, 2.0, 3.0, 3.5, 4.5, 5.9, 6.25]
     res = {+1: [], -1: []}; n = 0
@@ -340,9 +353,10 @@ def winding_step(ctx, crate):
         whyc = "the counter adds one per vertex of negative latitude; the result requires 2 n > number of vertices" if okc else "vertex counter: %d increment site(s), all under `lat < 0`: %s; final test %s reads as 2 n > len: %s" % (len(incs), lat_test, show(final)[:60] if final else None, okf)
     ctx.report(clause, "Basic::contains_south_pole:more-vertices-south-than-north", okc, whyc, at=b.span, kind="N")
     # the final test: false on a total of 0, true on a total of +-2pi (the vertex count being favourable)
-    ctx.report(clause, key, not bad and ok_init and n >= 70,
-               "%d pairs of longitudes: the update adds the difference wrapped to (-pi, pi); the sum starts at 0" % n if not bad and ok_init else
-               ("the sum starts at %r" % f64_from_bits(init[2]) if not ok_init else
+    ctx.report(clause, key, not bad and ok_init and n >= 70 and consecutive,
+               "%d pairs of longitudes: the update adds the difference wrapped to (-pi, pi) of consecutive vertices (last-to-first included); the sum starts at 0" % n if not bad and ok_init and consecutive else
+               ("the two longitudes are not those of consecutive vertices (indices %s and %s)" % (show(ia)[:40] if ia else None, show(ib)[:40] if ib else None) if not bad and ok_init else
+                "the sum starts at %r" % f64_from_bits(init[2]) if not ok_init else
                 "%d of %d pairs wrong, e.g. longitudes %s and %s add %r to the sum, the short way round is %r — a polygon that crosses lon = 0 gets a total of +-2pi and is turned inside out" % (len(bad), n, bad[0][0], bad[0][1], bad[0][2], bad[0][3])),
                at=b.span, kind="N", sample={"pairs": n, "mismatches": [list(map(str, x)) for x in bad[:3]]})
 
